@@ -118,7 +118,7 @@ def forms_roundtrip(v, work, tier, seed):
         k, chunk = k_chunk
         todo = list(chunk)
         st, fails = 0, []
-        while todo:
+        while todo and len(fails) < 4:
             p = work.path("forms_%d_%d.json" % (k, len(todo)))
             json.dump([{x: c[x] for x in ("a", "b", "printed")} for c in todo], open(p, "w"))
             r = vlib.tlc("PrintForm", FORM_CFG, env={"VERIF_FORMS": p}, workers=1, timeout=1500, work=work)
